@@ -44,6 +44,9 @@ fn main() {
         ("faults", "fields") => props::faults::write_fields(&args),
         ("faults", "child") => props::faults::child(&args),
         ("faults", "run") => props::faults::run(&args),
+        ("replay", "ods_text") => props::ods_text::replay(&args),
+        ("replay", "bin_text") => props::bin_text::replay(&args),
+        ("drive", "bin_text") => props::bin_text::drive(&args),
         ("replay", "de") => props::de::replay(&args),
         ("drive", "de") => props::de::drive(&args),
         ("replay", "cfb") => isolate::run_replay(&args, props::cfb::replay),
